@@ -16,4 +16,5 @@ void sched_thread_end(int tid);
 void sched_run_all(void);
 int sched_is_active(void);
 void sched_yield_point(int point);
+void sched_resolve_locks(void);   /* call once before any thread is started */
 #endif
